@@ -1355,7 +1355,8 @@ class QueryBuilder(Selectable, Term):  # type:ignore[misc]
             if isinstance(field, int) and not isinstance(field, bool):
                 field = _column_position(field)
             field = (
-                Field(field, table=self._from[0])
+                # a name is a column of the statement's own table: the updated one, or the first FROM item
+                Field(field, table=self._update_table or self._from[0])
                 if isinstance(field, str)
                 else self.wrap_constant(field)
             )
